@@ -26,6 +26,7 @@ PARAMS = {
     'lsearchk::lemarechal::safeguard': (('safeguard',), '(and (< 0.0 safeguard) (< safeguard 0.5))'),
     'lsearchk::lemarechal::tau1': (('tau1',), '(and (< 2.0 tau1) (< tau1 1000000.0))'),
     'lsearchk::fletcher::tau1': (('tau1',), '(and (< 2.0 tau1) (< tau1 1000000.0))'),
+    'lsearchk::morethuente::delta': (('delta',), '(and (< 0.0 delta) (< delta 1.0))'),
     'lsearchk::fletcher::tau23': (('tau2', 'tau3'), '(and (< 0.0 tau2) (< tau2 tau3) (<= tau3 0.5))'),
 }
 ENUM_PARAMS = ('lsearchk::backtrack::interpolation', 'lsearchk::lemarechal::interpolation', 'lsearchk::fletcher::interpolation')
@@ -214,7 +215,7 @@ def pair_hook(wp, n):
             and ('result_t' in qual(n['type']) or 'tuple<bool, double>' in qual(n['type'])):
         ok = wp.conv(wp.ev(n['inner'][0]), 'Bool', 'bool')
         t = wp.conv(wp.ev(n['inner'][1]), 'Real', 'double')
-        return V('pair', 'Pair', (ok.t, t.t, wp.env['state.t'].t, wp.env['state.valid'].t))
+        return V('pair', 'Pair', (ok.t, t.t, wp.env['state.t'].t, wp.env['state.valid'].t, wp.env['state.fx'].t, wp.env['state.dg'].t))
     return None
 
 
@@ -223,7 +224,7 @@ def zoom_requires(lo_t, hi_t):
 
 
 def result_post(wp, rv):
-    ok, t, st, valid = rv.c
+    ok, t, st, valid = rv.c[:4]
     return [('success => the returned step is positive', f'(=> {ok} (> {t} 0.0))'),
             ('success => the state is the valid evaluation at exactly the returned step', f'(=> {ok} (and (= {t} {st}) {valid}))')]
 
@@ -234,7 +235,7 @@ def h_zoom(wp, n, args, obj):
     for label, claim in zoom_requires(lo[0].t, hi[0].t):
         wp.oblige('zoom precondition: ' + label, claim, n)
     ok, t, st, valid = (wp.fresh('Bool', 'zoom_ok'), wp.fresh('Real', 'zoom_t'), wp.fresh('Real', 'zoom_state_t'), wp.fresh('Bool', 'zoom_valid'))
-    rv = V('pair', 'Pair', (ok.t, t.t, st.t, valid.t))
+    rv = V('pair', 'Pair', (ok.t, t.t, st.t, valid.t, wp.fresh('Real', 'zoom_fx').t, wp.fresh('Real', 'zoom_dg').t))
     for _, claim in result_post(wp, rv):
         wp.assume(claim)
     return rv
@@ -259,7 +260,7 @@ def h_do_get(wp, n, args, obj):
     t = wp.conv(wp.ev(args[2]), 'Real', 'double')
     wp.oblige('do_get precondition: the step handed to the line search is > 0', f'(> {t.t} 0.0)', n)
     ok, rt, st, valid = (wp.fresh('Bool', 'do_get_ok'), wp.fresh('Real', 'do_get_t'), wp.fresh('Real', 'do_get_state_t'), wp.fresh('Bool', 'do_get_valid'))
-    return V('pair', 'Pair', (ok.t, rt.t, st.t, valid.t))
+    return V('pair', 'Pair', (ok.t, rt.t, st.t, valid.t, wp.fresh('Real', 'do_get_fx').t, wp.fresh('Real', 'do_get_dg').t))
 
 
 CALLS = [(r'^stpmin\|', h_stpmin), (r'^epsilon\|double \(\)', lambda wp, n, a, c: V('(/ 1.0 4503599627370496.0)', 'Real', 'double')),
@@ -277,10 +278,10 @@ MEMBERS = [(r'^value\|', h_value), (r'^update\|.*lsearchk', h_update), (r'^valid
 STATE_KEYS = ('state.t', 'state.fx', 'state.dg', 'state.valid', 'evals')
 
 
-def mk(name, tu, flt, cxx, setup, invariants, about, post=result_post):
+def mk(name, tu, flt, cxx, setup, invariants, about, post=result_post, calls=(), members=()):
     fn = astload.find_definition(tu, flt, cxx)
     src = astload.resolve_tu(tu)
-    wp = IdEnvWP(name, real=True, calls=CALLS, members=MEMBERS, hooks=[pair_hook], invariants=invariants)
+    wp = IdEnvWP(name, real=True, calls=list(calls) + CALLS, members=list(members) + MEMBERS, hooks=[pair_hook], invariants=invariants)
     wp.decl_hooks = (decl_hook,)
     wp.params_seen = {}
     wp.clamps = []
